@@ -368,6 +368,7 @@ pub fn run_c07(ctx: &mut Ctx) {
     ctx.require("delivered-authenticated", 1_000);
     ctx.require("delivered-unauthenticated", 1_000);
     ctx.require("response-dropped-outstanding", 5_000);
+    ctx.require("forged-response-dropped-then-monitored", 2_000);
     ctx.require("retransmissions-checked", 5_000);
     ctx.require("completed-timed-out", 500);
 }
